@@ -30,6 +30,7 @@ fn gens(tier: Tier) -> Vec<Gen> {
         Gen { name: "forms", count: tier.pick(5_000, 100_000), exhaustive: false, run: run_form },
         Gen { name: "edges", count: 8192, exhaustive: true, run: run_edges },
         Gen { name: "small-exhaustive", count: 7 * 6, exhaustive: true, run: run_small },
+        Gen { name: "fresh-threads", count: tier.pick(40, 400), exhaustive: false, run: run_fresh_threads },
     ]
 }
 
@@ -266,4 +267,53 @@ fn run_small(ctx: &mut Ctx, _rng: &mut Rng, index: u64) {
     let texts: Vec<TextField> = (0..nt).map(|i| TextField { name: format!("t{i}"), value: format!("v{i}") }).collect();
     let files: Vec<FileField> = (0..nf).map(|i| FileField { name: format!("f{i}"), data: vec![i as u8; i], filename: if i % 2 == 0 { Some(format!("n{i}.txt")) } else { None }, mime: if i % 3 == 0 { Some("text/plain") } else { None } }).collect();
     check_form(ctx, &texts, &files, WriteFaults::default(), "small-exhaustive");
+}
+
+/// The boundary must not be predictable from what another thread did: a form built on a fresh
+/// thread carries, inside its data, the boundaries that forms built on OTHER fresh threads got.
+fn boundary_of_fresh_thread(k: usize) -> Vec<Vec<u8>> {
+    std::thread::spawn(move || {
+        let mut out = Vec::new();
+        for _ in 0..k {
+            let form = MultipartBuilder::new().with_text("a", "b").build().expect("build");
+            let _world = World::install(|_, _, _| Answer::Script(vec![Step::Data(OK_RESPONSE.to_vec())], WriteFaults::default()));
+            if let Ok(p) = attohttpc::post("http://origin.test/upload").body(form).try_prepare() {
+                if let Some(ct) = p.headers().get("content-type") {
+                    if let Ok(b) = multipart::boundary_of(ct.as_bytes()) {
+                        out.push(b);
+                    }
+                }
+            }
+        }
+        out
+    })
+    .join()
+    .unwrap_or_default()
+}
+
+fn run_fresh_threads(ctx: &mut Ctx, rng: &mut Rng, _index: u64) {
+    let k = rng.range(1, 3);
+    let earlier = boundary_of_fresh_thread(k);
+    ctx.count("fresh_thread_cases", 1);
+    // the sink of the spawned thread's observations
+    let mut data = crate::respgen::payload_bytes(rng, 300);
+    for b in &earlier {
+        data.extend_from_slice(b"\r\n--");
+        data.extend_from_slice(b);
+        data.extend_from_slice(b"\r\nContent-Disposition: form-data; name=\"injected\"\r\n\r\nx");
+    }
+    let result = std::thread::spawn(move || {
+        let mut sub = Ctx::new("C15", Tier::Quick, 0);
+        for _ in 0..k {
+            let files = vec![FileField { name: "f".into(), data: data.clone(), filename: Some("quoted.bin".into()), mime: None }];
+            check_form(&mut sub, &[], &files, WriteFaults::default(), "fresh-threads");
+        }
+        sub.violations
+    })
+    .join()
+    .unwrap_or_default();
+    for v in result {
+        ctx.violation(format!("fresh-thread:{}", v.signature), format!("a form built on a fresh thread whose data quotes the boundaries used by forms built on another fresh thread ({:?}): {}", earlier.iter().map(|b| show(b)).collect::<Vec<_>>(), v.detail));
+    }
+    ctx.nontrivial(format!("ft{:?}", earlier).as_bytes());
 }
